@@ -96,12 +96,12 @@ def balance(rs, cost, shard):
 
 
 def evaluate(ck, recs):
-    broken = [r for r in recs if (r.get("panic") or "").startswith(("setup:", "Append:", "CalculateRoot:"))]
+    broken = [r for r in recs if (r.get("panic") or "").startswith(("setup:", "Append:", "CalculateRoot:", "predmut:"))]
     recs = [r for r in recs if r not in broken]
     for r in broken:
         ck.count()
-        f = dict(kind="input", key="c11:%s:setup-failure" % r["k"], case=r,
-                 what="rmt %s: building the tree / batch root failed: %s on %s" % (r["k"], r["panic"], json.dumps(r)[:300]),
+        f = dict(kind="input", key="c11:%s:%s" % (r["k"], "predict-mutates-argument" if r.get("predmut") else "setup-failure"), case=r,
+                 what="rmt %s: %s on %s" % (r["k"], r["panic"], json.dumps(r)[:300]),
                  theorem_or_correspondence="harness c11 vs pkg/trie/rmt")
         f["spec_violated"] = True
         ck.failures.append(f)
@@ -138,11 +138,30 @@ def evaluate(ck, recs):
                 ck.failures.append(f)
 
 
+def run_capture(ck, binp, args, out_name="cases.jsonl"):
+    """run the harness; if the process dies (panic in a goroutine of the code under test) report the pending case concretely"""
+    import os
+    n_before = len(ck.failures)
+    recs = ck.run_harness(binp, args, out_name=out_name)
+    if recs is None:
+        pend = os.path.join(ck.work, out_name + ".pending")
+        if os.path.exists(pend):
+            case = json.load(open(pend))
+            why = ck.failures[-1]["what"][:500] if len(ck.failures) > n_before else "harness died"
+            f = dict(kind="input", key="c11:%s:crash" % case.get("k"), case=case,
+                     what="rmt %s: the implementation crashed the process (%s) on %s" % (
+                         case.get("k"), " ".join(why.split())[:300], json.dumps(case)[:400]),
+                     theorem_or_correspondence="harness c11 vs pkg/trie/rmt (unrecoverable panic)")
+            f["spec_violated"] = True
+            ck.failures.append(f)
+    return recs
+
+
 def corpus(ck, binp):
     import glob, os
     out = []
     for p in sorted(glob.glob(os.path.join(os.path.dirname(os.path.dirname(os.path.dirname(__file__))), "corpus", "C11", "*.jsonl"))):
-        recs = ck.run_harness(binp, ["-in", p], out_name="corpus_%s" % os.path.basename(p))
+        recs = run_capture(ck, binp, ["-in", p], out_name="corpus_%s" % os.path.basename(p))
         if recs:
             out.extend(recs)
     return out
@@ -158,7 +177,7 @@ def run(ck):
     else:
         args = ["-nmax", "600", "-pexp", "11", "-nsub", "8", "-nproof", "1500", "-pmax", "300", "-nupd", "800", "-rwmax", "110"]
     recs = corpus(ck, binp)
-    main = ck.run_harness(binp, args)
+    main = run_capture(ck, binp, args)
     if main is None:
         return
     recs = recs + main
@@ -169,7 +188,7 @@ def run(ck):
             s = dict(xs[len(xs) // 2])
             s.pop("sibs", None)
             ck.sample(s)
-    ck.cov["rule"] = ("append/predict/reload/batch: every size 0..N exhaustively (N=70 quick, 600 thorough) plus sizes 2^k-2..2^k+2 "
+    ck.cov["rule"] = ("append/predict (from a private copy AND from the live AppendPath(), which must leave the tree unchanged)/reload/batch: every size 0..N exhaustively (N=70 quick, 600 thorough) plus sizes 2^k-2..2^k+2 "
                       "(k<=8 quick, 11 thorough) and random sizes near powers of two with a second seed; proofs: every leaf subset of every "
                       "tree with n<=6 (8 thorough) incl. the empty query, random subsets in random order with absent and duplicate "
                       "queries and after updates, each with all single-field tamperings (each query hash, root, each sibling hash, "
@@ -195,7 +214,7 @@ def replay(ck, path):
     binp = ck.go_build("c11")
     inp = ck.work + "/replay_in.jsonl"
     open(inp, "w").write(json.dumps(case) + "\n")
-    recs = ck.run_harness(binp, ["-in", inp], out_name="replay.jsonl")
+    recs = run_capture(ck, binp, ["-in", inp], out_name="replay.jsonl")
     if recs is not None:
         ck.prove(extra_targets=["Corr/C11.vo"])
         evaluate(ck, recs)
